@@ -1073,7 +1073,9 @@ impl Monitor {
         }
         let got: BTreeSet<TaskId> = step_failed.iter().copied().collect();
         for t in &expected_failed {
-            if !got.contains(t) {
+            // a task that was aborted in the same step (the failure of another task on the same
+            // worker exceeded the job's max-fails) has its terminal outcome already
+            if !got.contains(t) && self.status(*t) != TStatus::Aborted {
                 self.v(
                     Prop::C07,
                     "not-failed-at-limit",
@@ -1783,10 +1785,19 @@ impl Monitor {
                             q.queue.iter().any(|(_, ids)| ids.contains(&t.id))
                                 || q.prefill.as_ref().is_some_and(|(_, ids)| ids.contains(&t.id))
                         });
+                        let my_prio: i64 = t.user_priority.parse().unwrap_or(0);
+                        let behind_mn = post.core.tasks.iter().any(|o| {
+                            o.id != t.id
+                                && matches!(o.state, TaskStateSnap::Waiting { unfinished_deps: 0 })
+                                && o.user_priority.parse::<i64>().unwrap_or(0) > my_prio
+                                && sys.server.task_mn_nodes(o.id).is_some()
+                        });
                         let site = if !in_queue {
                             "ready-task-not-in-any-queue"
                         } else if !blocked.is_empty() && blocked.len() == capable.len() {
                             "blocked-on-idle-worker"
+                        } else if behind_mn {
+                            "held-behind-waiting-higher-priority-multinode-task"
                         } else {
                             "ready-task-not-scheduled"
                         };
